@@ -63,9 +63,11 @@ let run_val (id : string) (fields : t list) : string =
              if not supported then "I" (* an unsupported $schema is refused for every instance *) else
              match M.spec_valid (re_match rx) fuel_big env (M.den i) with
              | Some true -> "V" | Some false -> "I" | None -> "F") insts in
-           Printf.sprintf "%s unm=ok res=ok calls=%s v=%s spec_v=%s%s" id
+           (* informational: does the Resolved satisfy the rank condition of val/Terminates.v (no chain of in-place calls closes)? *)
+           let rank = if M.rank_auto env then "1" else "0" in
+           Printf.sprintf "%s unm=ok res=ok calls=%s v=%s spec_v=%s%s model_rank=%s" id
              (String.concat "," (List.sort compare (List.map ints_of_str calls))) (String.concat "" vs) (String.concat "" sp)
-             (if rx.miss > 0 then Printf.sprintf " rxmiss=%d" rx.miss else "")
+             (if rx.miss > 0 then Printf.sprintf " rxmiss=%d" rx.miss else "") rank
        | r -> Printf.sprintf "%s unm=ok res=%s" id (res_tag r))
   | r -> Printf.sprintf "%s unm=%s" id (res_tag r)
 
